@@ -12,4 +12,4 @@ lat_max = g.bounds.values[0][0][1]
 n1 = np.array(_lonlat_rad_to_xyz(np.deg2rad(10.0), np.deg2rad(45.0))); n2 = np.array(_lonlat_rad_to_xyz(np.deg2rad(10.5), np.deg2rad(45.0)))
 top = extreme_gca_latitude(np.array([n1, n2]), "max")
 print("reported lat_max", lat_max, " maximum of the top arc", top)
-print("DEFECT: the top edge leaves the reported bounds by", top - lat_max, "rad" if top - lat_max > 1e-8 else "no difference (defect absent)")
+print(f"DEFECT: the top edge leaves the reported bounds by {top - lat_max} rad" if top - lat_max > 1e-8 else "no difference (defect absent)")
